@@ -28,8 +28,10 @@ Definition dec_step (v : value) : step_cfg :=
 
 Definition dec_dv (v : value) : arr (option Q) * arr Z :=
   (dec_arr as_oq None (vnth 0 v), dec_arr as_z 0 (vnth 1 v)).
+Definition dec_map (v : value) : Z -> Z := let l := as_zs v in fun o => getz (-1) l o.
 Definition dec_level (v : value) : level :=
-  mkLevel (as_z (vnth 0 v)) (dec_dv (vnth 1 v)) (dec_opt dec_dv (vnth 2 v)).
+  mkLevel (as_z (vnth 0 v)) (dec_dv (vnth 1 v)) (dec_opt dec_dv (vnth 2 v))
+          (dec_map (vnth 3 v), dec_map (vnth 4 v)).
 
 Definition enc_pair (p : option Q * option Q) : value := VL [of_oq (fst p); of_oq (snd p)].
 Definition enc_grids (g : grids) : value :=
